@@ -3,9 +3,12 @@ package checks
 import (
 	"fmt"
 
+	"verif/enum"
 	"verif/fw"
 	"verif/model"
 )
+
+var idnaSigma = []string{"a", "b", "x", "n", "A", "0", "1", "-", "_", ".", "é", "ß", "≠", "≮", "\u00ad", "\u200d", "א", "Ａ", "。", "İ", "\xff"}
 
 // stateOracle evaluates a per-state oracle on a world (after a history) or a parse result.
 type stateOracle func(w *World, how string) *fw.Finding
@@ -93,6 +96,33 @@ func registerStateCheck(id, kindParse, kindHist string, or stateOracle, needMode
 				if f := evalParse(base, input); f != nil {
 					b, i := base, input
 					c.Report(f, func() *fw.Case { return &fw.Case{Kind: kindParse, S: fw.Strs(b, i)} })
+				}
+			})
+			// hosts with IDNA-relevant characters (mapped, ignored, joiner, bidi, full-width, deviation, the
+			// STD3-sensitive U+2260/226E/226F): the serialized host must be a fixed point of the host parser
+			c.Space("idna-hosts")
+			kh := 3
+			if c.Thorough() {
+				kh = 4
+			}
+			enum.Raw(idnaSigma, kh, func(b []byte) {
+				if len(b) == 0 || !c.Mine() || c.Expired() {
+					return
+				}
+				for _, pre := range []string{"https://", "ws://u@"} {
+					in := pre + string(b) + "/p"
+					c.Eval()
+					c.R.Traces++
+					w := parseWorld("", in)
+					if !w.Dead && w.Panic == "" {
+						c.Nontrivial()
+						c.R.Transitions++
+						c.StateHash(fw.Hash(w.U.Href(false)))
+					}
+					if f := evalParse("", in); f != nil {
+						i := in
+						c.Report(f, func() *fw.Case { return &fw.Case{Kind: kindParse, S: fw.Strs("", i)} })
+					}
 				}
 			})
 			depth := 2
